@@ -485,6 +485,186 @@ def run_children(cases: list[dict], nproc: int = core.NCPU, timeout: int = 600):
 
 
 # ======================================================================================================================
+# the commands the way a user runs them: `python -m cdd <command> …` with cwd = the directory holding the hostile files
+# ======================================================================================================================
+def cli_child_main(spec_path: str, outp: str):
+    """one process per case: audit hook first, then the package's __main__ exactly as `python -m cdd` runs it (cwd first on sys.path)"""
+    import io
+    import runpy
+
+    spec = json.loads(Path(spec_path).read_text())
+    tmp = spec["tmp"]
+    sys.dont_write_bytecode = True
+    if sys.path and sys.path[0] in ("", "."):
+        sys.path[0] = os.getcwd()  # what `-m` puts there
+    S = _State
+
+    def prof(frame, event, arg):
+        co = frame.f_code
+        if co.co_name == "parse_adhoc_doc_for_typ" and co.co_filename.endswith("parse_utils.py") and S.active:
+            if event == "call":
+                loc = frame.f_locals
+                S.adhoc.append({"doc": loc.get("doc"), "name": loc.get("name"), "none": loc.get("default_is_none"), "ret": "<pending>"})
+            elif event == "return" and S.adhoc:
+                S.adhoc[-1]["ret"] = arg
+
+    sys.addaudithook(_hook)
+    S.events, S.adhoc, S.last_compile = [], [], (None, None)
+    sys.argv = ["cdd"] + spec["argv"]
+    saved_out, saved_err = sys.stdout, sys.stderr
+    sys.stdout, sys.stderr = io.StringIO(), io.StringIO()
+    try:
+        sys.setprofile(prof)
+        S.active = True
+        try:
+            runpy.run_module("cdd", run_name="__main__", alter_sys=True)
+            status = "ok"
+        except SystemExit as e:
+            status = "ok" if e.code in (0, None) else "exit:%s" % (e.code,)
+        except BaseException as e:  # noqa
+            status = type(e).__name__
+        finally:
+            S.active = False
+            sys.setprofile(None)
+    finally:
+        err_text = sys.stderr.getvalue()[-400:]
+        sys.stdout, sys.stderr = saved_out, saved_err
+    roots = [os.path.realpath(p) for p in (sys.prefix, sys.base_prefix, str(core.REPO))]
+    repo = os.path.realpath(str(core.REPO))
+    canaries = set(G.CANARY_MODULES) | set(spec.get("hostile", []))
+    events = []
+    for e in S.events:
+        if e["ev"] == "exec":
+            cf_ = e["code_file"]
+            in_cdd = _under(e["caller_file"], [repo + "/cdd"]) and "/tests/" not in e["caller_file"]
+            installed = cf_.startswith("<frozen ") or (os.path.isabs(cf_) and _under(cf_, roots) and not _under(cf_, [tmp]))
+            if installed and not in_cdd:
+                continue  # ordinary imports of installed modules
+        elif e["ev"] == "import" and e["name"].split(".")[0] not in canaries:
+            continue
+        events.append(e)
+    loaded = sorted(n for n, m in list(sys.modules.items()) if isinstance(getattr(m, "__file__", None), str) and _under(m.__file__, [tmp]))
+    Path(outp).write_text(json.dumps({"events": events, "adhoc": [{k: _jsonable(v) for k, v in a.items()} for a in S.adhoc], "steps": [["cli." + spec["command"], status]],
+                                      "canary_loaded": loaded, "stderr": err_text, "prefixes": [sys.prefix, sys.base_prefix, str(core.REPO)]}, ensure_ascii=True, default=repr))
+
+
+def run_cli_cases(cases: list[dict], nproc: int = core.NCPU, timeout: int = 90):
+    """each case in its own interpreter, started in the case's own temp directory"""
+    env = dict(os.environ)
+    env["PYTHONPATH"] = os.pathsep.join([str(core.REPO), str(core.VERIF)] + ([env["PYTHONPATH"]] if env.get("PYTHONPATH") else []))
+    env["PYTHONDONTWRITEBYTECODE"] = "1"
+    env["PYTHONHASHSEED"] = "0"
+    import shutil
+
+    def run(case):
+        tmp = Path(os.path.realpath(tempfile.mkdtemp(prefix="c17cli_")))
+        try:
+            sentinel = str(tmp / "PWNED")
+            sub = lambda x: x.replace(G.SENT, sentinel).replace("@TMP@", str(tmp))  # noqa: E731
+            for rel, text in case["files"].items():
+                f = tmp / rel
+                f.parent.mkdir(parents=True, exist_ok=True)
+                f.write_text(sub(text))
+            before = {str(p) for p in tmp.rglob("*")}
+            spec = {"argv": [sub(a) for a in case["argv"]], "tmp": str(tmp), "command": case["command"], "hostile": case.get("hostile", [])}
+            io_dir = Path(tempfile.mkdtemp(prefix="c17cliio_"))
+            (io_dir / "spec.json").write_text(json.dumps(spec))
+            try:
+                p = subprocess.run([core.PY, "-c", "import sys; from harness.props import c17; c17.cli_child_main(sys.argv[1], sys.argv[2])",
+                                    str(io_dir / "spec.json"), str(io_dir / "out.json")], stdin=subprocess.DEVNULL, stdout=subprocess.PIPE, stderr=subprocess.PIPE,
+                                   text=True, env=env, cwd=str(tmp), timeout=timeout)
+            except subprocess.TimeoutExpired:
+                return _blank(timeout=True, tmp=str(tmp))
+            if not (io_dir / "out.json").exists():
+                return _blank(crashed=True, stderr=(p.stderr or "")[-1500:], rc=p.returncode, tmp=str(tmp))
+            rec = json.loads((io_dir / "out.json").read_text())
+            shutil.rmtree(io_dir, ignore_errors=True)
+            allowed = [str(tmp / o) for o in case.get("outputs", [])]
+            after = {str(p) for p in tmp.rglob("*")}
+            real_allowed = {os.path.realpath(a) for a in allowed}
+            stray = sorted(p for p in after - before if os.path.realpath(p) not in real_allowed)
+            rec.update({"sentinel": os.path.lexists(sentinel), "stray_files": [p.replace(str(tmp), "<tmp>") for p in stray], "allowed": allowed, "tmp": str(tmp),
+                        "harness_error": None, "truth_file": str(tmp / case["truth"]) if case.get("truth") else None})
+            return rec
+        finally:
+            shutil.rmtree(tmp, ignore_errors=True)
+
+    with cf.ThreadPoolExecutor(max(1, min(nproc, len(cases)))) as ex:
+        return list(ex.map(run, cases))
+
+
+_CLS = ("class C(object):\n    \"\"\"\n    Doc.\n\n    :cvar a: the thing or None. Defaults to 5\n    :cvar b: one of 'x', 'y' or 'z'\n    \"\"\"\n\n    a: int = 5\n    b: str = 'x'\n")
+_FUN = "def f(a=5, b='x'):\n    \"\"\"\n    Doc.\n\n    :param a: the thing or None\n    :type a: ```int```\n\n    :param b: one of 'x', 'y' or 'z'\n    :type b: ```str```\n    \"\"\"\n"
+_ARGP = ("def set_cli_args(argument_parser):\n    \"\"\"\n    Set CLI arguments\n\n    :param argument_parser: argument parser\n    :type argument_parser: ```ArgumentParser```\n\n"
+         "    :return: argument_parser\n    :rtype: ```ArgumentParser```\n    \"\"\"\n    argument_parser.description = \"Doc.\"\n"
+         "    argument_parser.add_argument(\"--a\", type=int, help=\"the thing or None\", required=True, default=5)\n    return argument_parser\n")
+_SQL = ("from sqlalchemy import Column, Integer, String\n\nclass Tbl(Base):\n    \"\"\"\n    A table.\n\n    :cvar id: the key\n    :cvar name: the name or None\n    \"\"\"\n"
+        "    __tablename__ = 'tbl'\n    id = Column(Integer, primary_key=True, doc='the key')\n    name = Column(String, doc='the name or None', nullable=True)\n")
+_ROUTE = "@app.get('/api/tbl/:id')\ndef read(id):\n    \"\"\"\n    Read one\n\n    ```yml\n    responses:\n      '200':\n        description: A `Tbl` object.\n    ```\n\n    :param id: the key\n    :type id: ```int```\n    \"\"\"\n"
+
+
+def _hostile(tag, body):
+    """a file the command is only supposed to READ: importing / executing it leaves a marker"""
+    return "import os\nopen('%s', 'w').write(%r)\n\n%s" % (G.SENT, tag, body)
+
+
+def cli_cases():
+    """fixed matrix: every command × every option that takes a file × the ways a user may spell the file (bare name, ./name, sub/name, absolute)"""
+    styles = {"bare": ("", "%s"), "dot": ("", "./%s"), "sub": ("sub/", "sub/%s"), "abs": ("", "@TMP@/%s")}
+    out = []
+    for st, (d, fmt) in styles.items():
+        P = lambda name: fmt % name  # noqa: E731
+        F = lambda name: d + name  # noqa: E731
+        out.append({"fn": "cli", "command": "gen", "label": "gen:input-mapping+imports-from-file=" + st,
+                    "files": {F("inp.py"): _hostile("inp", _CLS), F("models.py"): _hostile("models", "from typing import Optional\n")}, "hostile": ["inp", "models", "sub"],
+                    "argv": ["gen", "--name-tpl", "{name}Cfg", "--input-mapping", P("inp.py"), "--imports-from-file", P("models.py"), "--parse", "class", "--emit", "argparse",
+                             "-o", P("out.py")], "outputs": [F("out.py")]})
+        out.append({"fn": "cli", "command": "gen", "label": "gen:input-mapping=" + st,
+                    "files": {F("inp.py"): _hostile("inp", _CLS + "\n\n" + _FUN)}, "hostile": ["inp", "sub"],
+                    "argv": ["gen", "--name-tpl", "{name}Cfg", "--input-mapping", P("inp.py"), "--emit", "json_schema" if st in ("bare", "sub") else "class", "-o", P("out.json")],
+                    "outputs": [F("out.json")]})
+        out.append({"fn": "cli", "command": "doctrans", "label": "doctrans:filename=" + st, "files": {F("mod.py"): _hostile("mod", _FUN + "\n\n" + _CLS)}, "hostile": ["mod", "sub"],
+                    "argv": ["doctrans", "--filename", P("mod.py"), "--format", "google", "--type-annotations" if st in ("bare", "abs") else "--no-type-annotations"],
+                    "outputs": [F("mod.py")]})
+        out.append({"fn": "cli", "command": "sync_properties", "label": "sync_properties:input-filename+output-filename=" + st,
+                    "files": {F("in.py"): _hostile("in", "X = 7\n\nclass A:\n    a: int = 9\n"), F("out.py"): _hostile("out", "class B:\n    a: int = 5\n")}, "hostile": ["in", "out", "sub"],
+                    "argv": ["sync_properties", "--input-filename", P("in.py"), "--input-param", "A.a", "--output-filename", P("out.py"), "--output-param", "B.a"],
+                    "outputs": [F("out.py")]})
+        out.append({"fn": "cli", "command": "sync", "label": "sync:truth+targets=" + st, "truth": F("class.py"),
+                    "files": {F("class.py"): _hostile("class", _CLS), F("function.py"): _hostile("function", _FUN), F("argparse_function.py"): _hostile("argparse", _ARGP)},
+                    "hostile": ["class", "function", "argparse_function", "sub"],
+                    "argv": ["sync", "--truth", "class", "--class", P("class.py"), "--class-name", "C", "--function", P("function.py"), "--function-name", "f",
+                             "--argparse-function", P("argparse_function.py"), "--argparse-function-name", "set_cli_args"],
+                    "outputs": [F("function.py"), F("argparse_function.py")]})
+        out.append({"fn": "cli", "command": "gen_routes", "label": "gen_routes:model-path=" + st, "files": {F("models.py"): _hostile("models", _SQL)}, "hostile": ["models", "routes", "sub"],
+                    "argv": ["gen_routes", "--crud", "CRD", "--app-name", "app", "--model-path", P("models.py"), "--model-name", "Tbl", "--routes-path", P("routes.py")],
+                    "outputs": [F("routes.py")]})
+        out.append({"fn": "cli", "command": "openapi", "label": "openapi:model-paths+routes-paths=" + st,
+                    "files": {F("models.py"): _hostile("models", _SQL), F("routes.py"): _hostile("routes", _ROUTE)}, "hostile": ["models", "routes", "sub"],
+                    "argv": ["openapi", "--app-name", "app", "--model-paths", P("models.py"), "--routes-paths", P("routes.py")], "outputs": []})
+    # gen --phase 1 / 2 rewrite the named file in place and resolve the symbols it imports
+    fk_models = ("from sqlalchemy import Column, ForeignKey, Integer\nfrom %s import Other\n\n\nclass T(Base):\n    __tablename__ = 't'\n    id = Column(Integer, primary_key=True)\n"
+                 "    other = Column(Other, ForeignKey('Other'), nullable=True)\n")
+    other = "class Other(Base):\n    __tablename__ = 'other'\n    id = Column(Integer, primary_key=True)\n"
+    out.append({"fn": "cli", "command": "gen", "label": "gen-phase2:from-import-of-dotted-module",
+                "files": {"models.py": fk_models % "pwnpkg_c17x.other", "pwnpkg_c17x/__init__.py": _hostile("pkg", ""), "pwnpkg_c17x/other.py": other}, "hostile": ["pwnpkg_c17x"],
+                "argv": ["gen", "--name-tpl", "{name}", "--input-mapping", "x", "--emit", "sqlalchemy", "-o", "models.py", "--phase", "2"], "outputs": ["models.py"]})
+    out.append({"fn": "cli", "command": "gen", "label": "gen-phase2:from-import-of-top-level-module",
+                "files": {"models.py": fk_models % "otherm_c17x", "otherm_c17x.py": _hostile("otherm", other)}, "hostile": ["otherm_c17x"],
+                "argv": ["gen", "--name-tpl", "{name}", "--input-mapping", "x", "--emit", "sqlalchemy", "-o", "models.py", "--phase", "2"], "outputs": ["models.py"]})
+    out.append({"fn": "cli", "command": "gen", "label": "gen-phase1:columns",
+                "files": {"models.py": _hostile("models", fk_models % "otherm_c17x"), "otherm_c17x.py": _hostile("otherm", other)}, "hostile": ["otherm_c17x", "models"],
+                "argv": ["gen", "--name-tpl", "{name}", "--input-mapping", "x", "--emit", "sqlalchemy", "-o", "models.py", "--phase", "1"], "outputs": ["models.py"]})
+    return out
+
+
+CLI_CONTROL = {"fn": "cli", "command": "sync_properties", "label": "control:sync_properties --input-eval", "control": True,
+               "files": {"in.py": _hostile("in", "X = 7\n"), "out.py": "class B:\n    a: int = 5\n"}, "hostile": ["in"],
+               "argv": ["sync_properties", "--input-filename", "in.py", "--input-param", "X", "--input-eval", "--output-filename", "out.py", "--output-param", "B.a"],
+               "outputs": ["out.py"]}
+
+
+# ======================================================================================================================
 # the oracle over one observation record
 # ======================================================================================================================
 def _under(path: str, roots) -> bool:
@@ -498,8 +678,9 @@ def _under(path: str, roots) -> bool:
 def judge(case, rec, meta, predict):
     """list of (sig, what) failures of the property on this observation; `predict(doc, name, none)` = model's adhoc output"""
     out = []
-    fn = case["fn"]
-    control = fn == "control_input_eval"
+    fn = case.get("command") or case["fn"]  # CLI cases are labelled by their command (`sync`, `gen`, …)
+    control = fn == "control_input_eval" or bool(case.get("control"))
+    canaries = set(G.CANARY_MODULES) | set(case.get("hostile", []))
     if rec.get("skipped"):
         return out
     if rec.get("timeout"):
@@ -539,11 +720,13 @@ def judge(case, rec, meta, predict):
                 if control and _under(cf_, [tmp]):
                     continue
                 if not (installed or helper):
-                    out.append(({"kind": "exec-foreign-code", "site": "library"}, "code object %s (%s) executed from %s:%s, source %r" % (
-                        cf_, e["code_name"], caller, e["caller_func"], (e["src"] or "")[:200])))
+                    sig = {"kind": "exec-foreign-code", "site": "library"}
+                    if _under(cf_, [tmp]):
+                        sig["code"] = os.path.realpath(cf_)[len(os.path.realpath(tmp)) + 1:]
+                    out.append((sig, "code object %s (%s) executed from %s:%s, source %r" % (cf_, e["code_name"], caller, e["caller_func"], (e["src"] or "")[:200])))
         elif ev == "import":
-            if e["name"] in G.CANARY_MODULES and not control:
-                out.append(({"kind": "import-from-input", "module": e["name"]}, "module %r named only by the analysed input was imported" % e["name"]))
+            if e["name"].split(".")[0] in canaries and not control:
+                out.append(({"kind": "import-from-input", "module": e["name"]}, "module %r — a file the command was only to read, or a name found only inside it — was imported" % e["name"]))
         elif ev == "open-write":
             if os.path.realpath(e["path"]) not in allowed and not (control and _under(e["path"], [tmp])):
                 which = "truth-file" if rec.get("truth_file") and os.path.realpath(e["path"]) == os.path.realpath(rec["truth_file"]) else "other"
@@ -559,13 +742,21 @@ def judge(case, rec, meta, predict):
                 "network" if ev.startswith(("socket", "urllib", "ftplib", "smtplib", "http.client", "poplib", "imaplib", "nntplib", "telnetlib", "webbrowser")) else \
                 "unpickle" if ev.startswith("pickle") else "fs-change" if ev.startswith(("os.", "shutil", "tempfile")) else "other"
             out.append(({"kind": "event-" + kind, "event": ev}, "audit event %s%s during %s" % (ev, e["args"], fn)))
-    if not control:
+    executed = any(sig["kind"] in ("exec-foreign-code", "import-from-input") for sig, _ in out)
+    if case["fn"] == "cli":
+        # the marker file and the write that created it are consequences of an execution already reported with its code object / module
+        if executed:
+            out = [(sig, w) for sig, w in out if not (sig["kind"] == "write-outside-output" and "PWNED" in w)]
+    if not control and not (case["fn"] == "cli" and executed):
         if rec["sentinel"]:
             out.append(({"kind": "sentinel-created", "fn": fn}, "the sentinel file named only inside the analysed input was created during %s" % fn))
         if rec["stray_files"]:
             out.append(({"kind": "stray-file", "fn": fn}, "files other than the named output appeared: %s" % rec["stray_files"]))
         if rec["canary_loaded"]:
             out.append(({"kind": "import-from-input", "module": rec["canary_loaded"][0]}, "canary module(s) %s loaded during %s" % (rec["canary_loaded"], fn)))
+    if case["fn"] == "cli":
+        for sig, _ in out:
+            sig["cli"] = case["label"]
     return out
 
 
@@ -822,6 +1013,17 @@ def run(chk: core.Check) -> int:
                 "write event outside the output": any(e["ev"] == "open-write" and e["path"].endswith("PWNED") for e in ctl["events"])}
     if not all(ctl_seen.values()):
         raise core.HarnessError("control case (sync_properties --input-eval on a hostile module) was not fully observed: %s steps=%s" % (ctl_seen, ctl["steps"]))
+    _t("runtime oracle (in-process calls)")
+    # the same commands the way a user starts them: `python -m cdd …` from the directory holding the hostile files
+    ccases = [CLI_CONTROL] + cli_cases()
+    crecs = run_cli_cases(ccases)
+    cctl = crecs[0]
+    if not (cctl.get("sentinel") and any(e["ev"] == "exec" and e["caller_func"] == "sync_property" for e in cctl["events"])):
+        raise core.HarnessError("CLI control (python -m cdd sync_properties --input-eval on a marker-writing file) was not observed: %s" % json.dumps(cctl)[:600])
+    chk.coverage["cli_cases"] = {c["label"]: r["steps"][0][1] if r.get("steps") else ("timeout" if r.get("timeout") else "crashed") for c, r in zip(ccases, crecs)}
+    rcases = rcases + ccases
+    recs = recs + crecs
+    _t("runtime oracle (python -m cdd)")
     # model predictions for every captured in-situ call of parse_adhoc_doc_for_typ
     calls, idx = [], {}
     for rec in recs:
@@ -844,7 +1046,7 @@ def run(chk: core.Check) -> int:
         n_exec = sum(1 for e in rec["events"] if e["ev"] == "exec" and e["caller_func"] == DOC_EVAL_SITE[1])
         n_exec_doc += n_exec
         chk.count(("runtime", json.dumps(case, sort_keys=True)), n_exec > 0 or any(s[1] == "ok" for s in rec["steps"]))
-        fn_stats[case["fn"]] = fn_stats.get(case["fn"], 0) + 1
+        fn_stats[case["fn"] if case["fn"] != "cli" else "cli:" + case["command"]] = fn_stats.get(case["fn"] if case["fn"] != "cli" else "cli:" + case["command"], 0) + 1
         for label, st in rec["steps"]:
             k = label.split(">")[-1] + ":" + ("ok" if st == "ok" else "raises")
             step_stats[k] = step_stats.get(k, 0) + 1
@@ -861,7 +1063,7 @@ def run(chk: core.Check) -> int:
                                      {"typ": a["ret"]}, p)
     chk.oblige("correspondence: %d in-situ calls of parse_adhoc_doc_for_typ (captured inside the real parsers) = model; %d doc-derived eval executions all equal the model's prediction"
                % (n_insitu, n_exec_doc), "correspondence", n_dis == 0 and have_driver, "%d disagreements" % n_dis)
-    _t("runtime oracle")
+    _t("runtime oracle (judging)")
     chk.coverage["section_seconds"] = t_sections
     chk.coverage["runtime_cases_by_fn"] = fn_stats
     chk.coverage["runtime_steps"] = dict(sorted(step_stats.items()))
@@ -888,8 +1090,8 @@ def replay(path: str) -> int:
         return 0 if (r == m and s.get("safe")) else 1
     if rp.get("fn") == "runtime":
         case = rp["case"]
-        recs, meta = run_children([CONTROL_CASE, case], nproc=1)
-        rec = recs[1]
+        recs, meta = run_children([CONTROL_CASE, case] if case["fn"] != "cli" else [CONTROL_CASE], nproc=1)
+        rec = recs[1] if case["fn"] != "cli" else run_cli_cases([case])[0]
         calls = [(a["doc"], a["name"] if isinstance(a["name"], str) else "", bool(a["none"])) for a in rec["adhoc"] if isinstance(a["doc"], str)]
         preds = core.model_batch([{"op": "c17.adhoc", "doc": x, "name": n, "none": f} for x, n, f in calls]) if calls else []
         table = dict(zip(calls, preds))
